@@ -1,10 +1,22 @@
 /-
 The path computation of werkzeug's static-file helpers (C14):
-`utils.send_from_directory`, `SharedDataMiddleware.get_directory_loader` and the export loop of
-`SharedDataMiddleware.__call__`. The file system is one opaque predicate `isfile : path → Bool`
-(`os.path.isfile`); what is computed is the path that would be opened, `none` = 404 / fall through
-to the wrapped application. The request path is the already percent-decoded PATH_INFO (any text).
-Core Lean only.
+`utils.send_from_directory` (with and without the `_root_path` keyword, incl. the join `send_file`
+itself performs), `SharedDataMiddleware.__init__` (which loader an export value gets),
+`get_directory_loader`, `get_file_loader`, `get_package_loader`, and the export loop + the
+`is_allowed` gate of `SharedDataMiddleware.__call__`.
+
+Outside the model (parameters):
+* the file system: one predicate `isfile : path → Bool` (`os.path.isfile` at request time; doubles as
+  "`reader.open_resource` succeeds" for package exports) and one predicate `isfileInit` for the
+  `os.path.isfile(value)` test `__init__` performs when the middleware is built;
+* `is_allowed` (`fnmatch` against `disallow`, or a subclass override): a predicate on `real_filename`;
+* `importlib`: a package export `(package, package_path)` enters as the directory `pkgDir` the
+  package's resource reader resolves resources against (`FileReader`: `pkgDir/<resource>`);
+* `get_path_info` (latin-1 → UTF-8 re-decoding of PATH_INFO): the request path is the decoded text;
+* mimetype / cache / etag headers: they never influence which file is opened.
+
+What is computed is the path that is opened (`open(path, "rb")`), `none` = 404 / fall through to the
+wrapped application. Core Lean only.
 -/
 import WzVerif.Model.Paths
 namespace Wz.Paths
@@ -15,55 +27,123 @@ def joinIfFile (isfile : Str → Bool) (root rel : Str) : Option Str :=
   | none => none
   | some p => if isfile p then some p else none
 
-/-- `send_from_directory(directory, path, environ)`: the file that is sent, or `none` = NotFound -/
+/-- `send_from_directory(directory, path, environ)` (no `_root_path`): the file that is sent, or
+`none` = NotFound -/
 def sendFromDirectory (isfile : Str → Bool) (directory path : Str) : Option Str :=
   joinIfFile isfile directory path
 
+/-- the path `send_from_directory(..., _root_path=r)` hands to `os.path.isfile` -/
+def sfdChecked (rootPath : Option Str) (p : Str) : Str :=
+  match rootPath with
+  | some r => join r [p]
+  | none => p
+
+/-- the path `send_file(path_str, environ, _root_path=r)` opens for the `path_str` it is given
+(`os.path.join(_root_path, path_or_file)`; without `_root_path` it is `abspath(path_str)`, i.e. the
+same file relative to the working directory) -/
+def sendFileOpened (rootPath : Option Str) (pathStr : Str) : Str :=
+  match rootPath with
+  | some r => join r [pathStr]
+  | none => pathStr
+
+/-- `send_from_directory(directory, path, environ, **kwargs)` with the optional `_root_path`
+keyword: `(tested, opened)` = the path given to `os.path.isfile` and the path `send_file` opens
+(`_root_path` stays in `kwargs`, so `send_file` joins it a second time), or `none` = NotFound -/
+def sendFromDirectoryRoot (isfile : Str → Bool) (rootPath : Option Str) (directory path : Str) :
+    Option (Str × Str) :=
+  match safeJoin directory [path] with
+  | none => none
+  | some p =>
+    let tested := sfdChecked rootPath p
+    if isfile tested then some (tested, sendFileOpened rootPath tested) else none
+
+/-- what a loader returns: `(real_filename, path the opener opens)`; `none` = `(None, None)` -/
+abbrev Loaded := Option (Str × Str)
+
 /-- the loader `get_directory_loader(directory)` returns, applied to `path` (`None` = the export
-key itself was requested): the file to open, or `none` -/
-def directoryLoader (isfile : Str → Bool) (directory : Str) (path : Option Str) : Option Str :=
+key itself was requested) -/
+def directoryLoader (isfile : Str → Bool) (directory : Str) (path : Option Str) : Loaded :=
   match path with
-  | some rel => joinIfFile isfile directory rel
-  | none => if isfile directory then some directory else none
+  | some rel => (joinIfFile isfile directory rel).map fun p => (basename p, p)
+  | none => if isfile directory then some (basename directory, directory) else none
+
+/-- the loader `get_file_loader(filename)` returns: whatever it is applied to, the export itself -/
+def fileLoader (filename : Str) (_path : Option Str) : Loaded := some (basename filename, filename)
 
 /-- the loader `get_package_loader(package, package_path)` returns, applied to `path`: the resource
-path handed to `reader.open_resource` (relative to the package directory), or `none`.
-`canOpen` = `open_resource` succeeds (no OSError); `None` is never served by a package export. -/
-def packageLoader (canOpen : Str → Bool) (packagePath : Str) (path : Option Str) : Option Str :=
+name is `safe_join(package_path, path)`, the file opened is that name below the package directory.
+`canOpen` = `open_resource` succeeds (no OSError / ValueError); `None` is never served. -/
+def packageLoader (canOpen : Str → Bool) (pkgDir packagePath : Str) (path : Option Str) : Loaded :=
   match path with
   | none => none
-  | some rel => joinIfFile canOpen packagePath rel
+  | some rel =>
+    match safeJoin packagePath [rel] with
+    | none => none
+    | some rp => if canOpen (join pkgDir [rp]) then some (basename rp, join pkgDir [rp]) else none
 
-/-- what an export key is mapped to: a directory, or `(package, package_path)` -/
+/-- what an export key is mapped to once `__init__` has chosen the loader -/
 inductive Export where
   | dir (directory : Str)
-  | pkg (packagePath : Str)
+  | file (filename : Str)
+  | pkg (pkgDir packagePath : Str)
+deriving DecidableEq, Repr
 
+/-- the trusted root of an export: the directory, the single file, or `package_path` below the
+package directory (`"."` when `package_path` is empty, as `safe_join` does) -/
 def Export.root : Export → Str
   | .dir d => d
-  | .pkg pp => pp
+  | .file f => f
+  | .pkg pd pp => join pd [if pp = [] then dot else pp]
 
-/-- the loader of an export; `isfile` doubles as "can be opened" for package resources -/
-def loaderOf (isfile : Str → Bool) : Export → Option Str → Option Str
+/-- an export value as given to the constructor: a `str`, or a `(package, package_path)` tuple -/
+inductive ExportSpec where
+  | path (value : Str)
+  | package (pkgDir packagePath : Str)
+
+/-- the loader choice of `SharedDataMiddleware.__init__` (`isfileInit` = `os.path.isfile` then) -/
+def mkExport (isfileInit : Str → Bool) : ExportSpec → Export
+  | .path v => if isfileInit v then .file v else .dir v
+  | .package pd pp => .pkg pd pp
+
+/-- `self.exports` after `__init__` (dict items or list of pairs: the order given) -/
+def mkExports (isfileInit : Str → Bool) (specs : List (Str × ExportSpec)) : List (Str × Export) :=
+  specs.map fun (k, v) => (k, mkExport isfileInit v)
+
+def loaderOf (isfile : Str → Bool) : Export → Option Str → Loaded
   | .dir d => directoryLoader isfile d
-  | .pkg pp => packageLoader isfile pp
+  | .file f => fileLoader f
+  | .pkg pd pp => packageLoader isfile pd pp
 
 /-- `str.startswith` -/
 def startsWith (s pre : Str) : Bool := pre.isPrefixOf s
 
-/-- the export loop of `SharedDataMiddleware.__call__` over exports `(search_path, export)`: the
-file that is served, or `none` = the wrapped app is called -/
-def sharedData (isfile : Str → Bool) : List (Str × Export) → Str → Option Str
+/-- `search_path` after `if not search_path.endswith("/"): search_path += "/"` -/
+def withSlash (search : Str) : Str := if search.getLast? = some '/' then search else search ++ ['/']
+
+/-- one iteration of the export loop of `__call__`: `some` = `break` with this file loader -/
+def tryExport (isfile : Str → Bool) (search : Str) (ex : Export) (path : Str) : Loaded :=
+  let exact := if search = path then loaderOf isfile ex none else none
+  match exact with
+  | some r => some r
+  | none =>
+    if startsWith path (withSlash search) then
+      loaderOf isfile ex (some (path.drop (withSlash search).length))
+    else none
+
+/-- the export loop of `SharedDataMiddleware.__call__`: the first export (in the order of
+`self.exports`) whose loader returns a file loader -/
+def findExport (isfile : Str → Bool) : List (Str × Export) → Str → Loaded
   | [], _ => none
   | (search, ex) :: rest, path =>
-    let exact := if search = path then loaderOf isfile ex none else none
-    match exact with
-    | some f => some f
-    | none =>
-      let sp := if search.getLast? = some '/' then search else search ++ ['/']
-      let sub := if startsWith path sp then loaderOf isfile ex (some (path.drop sp.length)) else none
-      match sub with
-      | some f => some f
-      | none => sharedData isfile rest path
+    match tryExport isfile search ex path with
+    | some r => some r
+    | none => findExport isfile rest path
+
+/-- `SharedDataMiddleware.__call__`: the file that is opened and served, or `none` = the wrapped
+application is called (`file_loader is None or not self.is_allowed(real_filename)`) -/
+def sharedData (isfile allowed : Str → Bool) (exports : List (Str × Export)) (path : Str) : Option Str :=
+  match findExport isfile exports path with
+  | some (name, f) => if allowed name then some f else none
+  | none => none
 
 end Wz.Paths
